@@ -224,9 +224,10 @@ def orientation(P, R):
 
 
 def _is_swap(s, bn):
-    if len(s.body) != 1 or s.orelse:
+    body = astq.real(s.body)
+    if len(body) != 1 or astq.real(s.orelse):
         return False
-    b = s.body[0]
+    b = body[0]
     return isinstance(b, ast.Assign) and isinstance(b.targets[0], ast.Tuple) and isinstance(b.value, ast.Tuple) and \
         sorted(x.id for x in b.targets[0].elts if isinstance(x, ast.Name)) == sorted(x.id for x in b.value.elts if isinstance(x, ast.Name))
 
@@ -581,8 +582,8 @@ def orientation_table(P, R):
     for s in ast.walk(tri.node):
         if isinstance(s, ast.If):
             for l_, op, r_ in astq.cmp_forms(s.test):
-                if norm(r_) == '0' and isinstance(s.body[0], ast.Return):
-                    rets[op] = norm(s.body[0].value)
+                if norm(r_) == '0' and astq.real(s.body) and isinstance(astq.real(s.body)[0], ast.Return):
+                    rets[op] = norm(astq.real(s.body)[0].value)
     ok = rets.get(ast.Gt) == '1' and rets.get(ast.Lt) == '-1'
     R.check(ok, 'C01.i', tri, None, 'triangle_orientation maps a positive cross product to +1 and a negative one to -1', f'triangle_orientation sign mapping is {rets}', construct='orientation sign mapping')
 
@@ -602,15 +603,15 @@ def fallback(P, R):
     R.floor('C01.h', 'point-in-polygon questions in the polygon kernel', len(pips), 1)
     rejects = []
     for s in f.node.body:
-        if isinstance(s, ast.If) and s.body and isinstance(s.body[0], ast.Return) and not any(isinstance(x, ast.Assign) for x in s.body) and set(astq.names_in(s.test)) & set(bn):
-            rejects.append(C.node(s.body[0]))
+        if isinstance(s, ast.If) and astq.real(s.body) and isinstance(astq.real(s.body)[0], ast.Return) and not any(isinstance(x, ast.Assign) for x in s.body) and set(astq.names_in(s.test)) & set(bn):
+            rejects.append(C.node(astq.real(s.body)[0]))
     blocked = set(n for n in stores if n is not None) | set(C.node(s) for s in pips) | set(rejects)
     # returns guarded by a flag that is only set on the way to a True-store are accepting exits too
     for s in ast.walk(f.node):
-        if isinstance(s, ast.If) and isinstance(s.test, ast.Name) and s.body and isinstance(s.body[0], ast.Return):
+        if isinstance(s, ast.If) and isinstance(s.test, ast.Name) and astq.real(s.body) and isinstance(astq.real(s.body)[0], ast.Return):
             flag = s.test.id
             sets = [C.node(a_) for a_ in ast.walk(f.node) if isinstance(a_, ast.Assign) and isinstance(a_.targets[0], ast.Name) and a_.targets[0].id == flag and norm(a_.value) == 'True']
-            rn = C.node(s.body[0])
+            rn = C.node(astq.real(s.body)[0])
             # `if flag: result[i] = True` statements: whenever the flag is set when such a test is reached, the store happens
             acc = [C.node(t_) for t_ in ast.walk(f.node) if isinstance(t_, ast.If) and isinstance(t_.test, ast.Name) and t_.test.id == flag
                    and any(isinstance(x, ast.Assign) and isinstance(x.targets[0], ast.Subscript) and norm(x.targets[0].value) == resp and norm(x.value) == 'True' for x in t_.body)]
